@@ -20,4 +20,4 @@ Deliver, inside {wt}:
 1. the source change itself (leave it applied in the worktree, uncommitted);
 2. `demo.py` - a small standalone program that exits 0 on the ORIGINAL code and exits 1 (printing what went wrong) WITH your change, demonstrating the property violation through the public API;
 3. `MUTANT.md` - which clause of the property it breaks, what it needs in order to manifest, which existing tests you ran (with the command from RUN.md) and that they pass with the change.
-Verify both directions yourself (`git stash` / `git stash pop` to compare original vs changed). Keep the diff minimal (a few lines). Finish with a short summary of the change and the manifesting condition.""")
+Verify both directions yourself (RUN.md shows how to run against the pristine copy `.orig_src`; never use git stash/checkout/reset - git metadata is shared with other worktrees). Keep the diff minimal (a few lines). Finish with a short summary of the change and the manifesting condition.""")
